@@ -41,21 +41,24 @@ Context {A R : Type}.
 (* what a returned list is, for any per-chunk evaluation chunk_res *)
 Lemma par_with_safe nargs ncpu (single : res (list R)) chunk_res sched r :
   par_with nargs ncpu single chunk_res sched = Some (Done r) ->
+  (nargs = 0 /\ r = []) \/
   (ncpu = 1%Z /\ single = Ok r) \/
   ((1 < ncpu)%Z /\ exists rs,
      Forall2 (fun p x => chunk_res (Z.to_nat ncpu) p = Ok x) (seq 0 (Z.to_nat ncpu)) rs /\
      r = concat rs).
 Proof.
-  unfold par_with. destruct (nargs =? 0); [discriminate|].
-  rewrite K_par_single. destruct (Z.eqb_spec ncpu 1) as [->|Hne].
-  - destruct single; intro E; inversion E; subst. left. now split.
+  unfold par_with. rewrite K_par_empty, K_par_single.
+  destruct (Z.eqb_spec (Z.of_nat nargs) 0) as [Hz|Hz].
+  { intro E; inversion E; subst. left. split; [lia|reflexivity]. }
+  destruct (Z.eqb_spec ncpu 1) as [->|Hne].
+  - destruct single; intro E; inversion E; subst. right. left. now split.
   - destruct (Z.ltb_spec ncpu 1) as [Hlt|Hge]; [discriminate|].
     destruct (negb _); [discriminate|].
     destruct (chunk_res (Z.to_nat ncpu) 0) as [r0|e] eqn:H0; [|discriminate].
     destruct (exec _ _ sched (init r0)) as [w m|o] eqn:He; [discriminate|].
     intro E; inversion E; subst o; clear E.
     apply gather_safe in He. destruct He as [rs [HF ->]].
-    right. split; [lia|]. exists (r0 :: rs). split; [|reflexivity].
+    right. right. split; [lia|]. exists (r0 :: rs). split; [|reflexivity].
     rewrite worker_pids_length in HF.
     assert (Hk : 2 <= Z.to_nat ncpu) by lia.
     destruct (Z.to_nat ncpu) as [|k']; [lia|].
@@ -66,14 +69,15 @@ Qed.
 Lemma parallelize_safe (f : A -> res R) args ncpu sched r :
   parallelize f args ncpu sched = Some (Done r) -> mapM f args = Ok r.
 Proof.
-  intro H. apply par_with_safe in H as [[_ H]|[Hn [rs [HF ->]]]]; [exact H|].
+  intro H. apply par_with_safe in H as [[Hz ->]|[[_ H]|[Hn [rs [HF ->]]]]]; [|exact H|].
+  { destruct args; [reflexivity|discriminate]. }
   rewrite <- (chunks_cover args (Z.to_nat ncpu)) at 1 by lia.
   apply mapM_concat. now apply Forall2_map_l.
 Qed.
 
 Lemma parallelize_empty (f : A -> res R) ncpu sched :
-  parallelize f [] ncpu sched = Some (Fail EmptyArgs).
-Proof. reflexivity. Qed.
+  parallelize f [] ncpu sched = Some (Done []).
+Proof. unfold parallelize, par_with. now rewrite K_par_empty. Qed.
 
 Lemma parallelize_single (f : A -> res R) args sched :
   args <> [] ->
@@ -81,7 +85,9 @@ Lemma parallelize_single (f : A -> res R) args sched :
   = Some (match mapM f args with Ok r => Done r | Err _ => Fail TaskRaised end).
 Proof.
   intro Hne. unfold parallelize, par_with.
-  destruct args; [contradiction|]. cbn [length Nat.eqb]. now rewrite K_par_single.
+  destruct args; [contradiction|]. rewrite K_par_empty.
+  destruct (Z.eqb_spec (Z.of_nat (length (a :: args))) 0) as [Hz|_]; [cbn [length] in Hz; lia|].
+  now rewrite K_par_single.
 Qed.
 
 Lemma parallelize_multi (f : A -> res R) args ncpu sched :
@@ -98,7 +104,8 @@ Lemma parallelize_multi (f : A -> res R) args ncpu sched :
   end.
 Proof.
   intros Hne Hn. unfold parallelize, par_with.
-  destruct args; [contradiction|]. cbn [length Nat.eqb].
+  destruct args; [contradiction|]. rewrite K_par_empty.
+  destruct (Z.eqb_spec (Z.of_nat (length (a :: args))) 0) as [Hz|_]; [cbn [length] in Hz; lia|].
   rewrite K_par_single. destruct (Z.eqb_spec ncpu 1); [lia|].
   destruct (Z.ltb_spec ncpu 1); [lia|].
   rewrite K_par_n_lqueues, worker_pids_length.
@@ -138,12 +145,16 @@ Proof.
 Qed.
 
 Lemma parallelize_complete (f : A -> res R) args ncpu sched o :
-  args <> [] -> (1 <= ncpu)%Z -> (forall a, exists b, f a = Ok b) ->
+  (1 <= ncpu)%Z -> (forall a, exists b, f a = Ok b) ->
   fault_free sched ->
   parallelize f args ncpu sched = Some o ->
   exists r, o = Done r /\ mapM f args = Ok r.
 Proof.
-  intros Hne Hn Htot Hff H.
+  intros Hn Htot Hff H.
+  destruct args as [|a0 args0].
+  { rewrite parallelize_empty in H. inversion H; subst. now exists []. }
+  assert (Hne : a0 :: args0 <> []) by discriminate.
+  remember (a0 :: args0) as args eqn:Hargs. clear Hargs.
   destruct (Z.eq_dec ncpu 1) as [->|Hn1].
   - rewrite parallelize_single in H by assumption.
     destruct (mapM_total_ok f args Htot) as [r Hr]. rewrite Hr in H.
@@ -165,11 +176,15 @@ Lemma parallelize_rss_deterministic (St : Type) (draw : St -> Z * St) (mk : Z ->
   parallelize_rss St draw mk g s0 args ncpu sched2 = Some (Done r2) ->
   r1 = r2.
 Proof.
-  intros H1 H2. apply par_with_safe in H1, H2.
-  destruct H1 as [[Hn1 H1]|[Hn1 [rs1 [HF1 ->]]]]; destruct H2 as [[Hn2 H2]|[Hn2 [rs2 [HF2 ->]]]];
-    try lia.
-  - congruence.
-  - f_equal. cbv beta in HF1, HF2. exact (Forall2_fun _ _ _ _ HF1 HF2).
+  intros H1 H2.
+  destruct args as [|a0 args0].
+  - unfold parallelize_rss, par_with in H1, H2. rewrite K_par_empty in H1, H2.
+    cbn [length Z.of_nat Z.eqb] in H1, H2. congruence.
+  - apply par_with_safe in H1, H2.
+    destruct H1 as [[Hz1 _]|[[Hn1 H1]|[Hn1 [rs1 [HF1 ->]]]]]; [discriminate| |];
+      (destruct H2 as [[Hz2 _]|[[Hn2 H2]|[Hn2 [rs2 [HF2 ->]]]]]; [discriminate| |]); try lia.
+    + rewrite H1 in H2. now inversion H2.
+    + f_equal. cbv beta in HF1, HF2. exact (Forall2_fun _ _ _ _ HF1 HF2).
 Qed.
 
 End Top.
@@ -230,12 +245,14 @@ Proof.
   inversion H; subst. split; [reflexivity|apply map_length].
 Qed.
 
-Lemma parallelize_empty_refuted :
-  exists (f : Z -> res Z) (args : list Z) (ncpu : Z) (sched : list action),
+(* regression: the code before fix ac3e25b raised for the empty argument list *)
+Lemma legacy_empty_raised :
+  exists (f : Z -> res Z) (ncpu : Z) (sched : list action),
     (forall a, exists b, f a = Ok b) /\ fault_free sched /\ (1 <= ncpu)%Z /\
-    mapM f args = Ok [] /\
-    parallelize f args ncpu sched = Some (Fail EmptyArgs).
+    mapM f [] = Ok [] /\
+    par_with_legacy_empty 0 ncpu (mapM f []) (fun k pid => mapM f (chunk [] k pid)) sched
+      = Some (Fail EmptyArgs).
 Proof.
-  exists (fun a => Ok a), [], 3%Z, [].
+  exists (fun a => Ok a), 3%Z, [].
   split; [intro a; now exists a|]. split; [reflexivity|]. split; [lia|]. split; reflexivity.
 Qed.
